@@ -1,0 +1,68 @@
+//go:build verif
+
+// Contracts for package phase3 (comment-only; compiled to nothing).
+
+package phase3
+
+// ---------------------------------------------------------------------------
+// crossing counter, first half (C12): the radix sort hands every edge between the two bands on to the accumulator
+// tree. upperEnd/lowerEnd: the ends of e as seen from the band with index u (cf. orderedEdgeNodes).
+//@ spec upperEnd(e *Edge, u int) *Node = e.From.Layer == u ? e.From : e.To
+//@ spec lowerEnd(e *Edge, u int) *Node = e.From.Layer == u ? e.To : e.From
+
+// radixsort: no edge is dropped and nothing is invented - the target of every edge is in the result, and every
+// non-nil entry of the result is the target of one of the edges. (Row-major order of the entries, which the
+// accumulator tree also relies on, is not part of this contract.)
+//@ func radixsort
+//@   requires upper != nil && lower != nil
+//@   requires forall t int :: 0 <= t && t < len(es) ==> es[t] != nil && es[t].From != nil && es[t].To != nil
+//@       && 0 <= upperEnd(es[t], upper.Index).LayerPos && upperEnd(es[t], upper.Index).LayerPos < len(upper.Nodes)
+//@       && 0 <= lowerEnd(es[t], upper.Index).LayerPos && lowerEnd(es[t], upper.Index).LayerPos < len(lower.Nodes)
+//@   requires[posindex] forall t int :: 0 <= t && t < len(es) ==> lower.Nodes[lowerEnd(es[t], upper.Index).LayerPos] == lowerEnd(es[t], upper.Index)
+//@   ensures[complete|C12] forall t int :: 0 <= t && t < len(es) ==> (exists q int :: 0 <= q && q < len(result) && result[q] == lowerEnd(es[t], upper.Index))
+//@   ensures[only|C12] forall q int :: 0 <= q && q < len(result) && result[q] != nil ==> (exists t int :: 0 <= t && t < len(es) && result[q] == lowerEnd(es[t], upper.Index))
+//@   loop range(mat)#1 index a
+//@     invariant len(mat) == m && allocatedArr(mat) && !old(allocatedArr(now(mat)))
+//@     invariant forall r int :: 0 <= r && r < a ==> len(mat[r]) == n && allocatedArr(mat[r]) && !old(allocatedArr(now(mat[r])))
+//@     invariant forall r int, s int :: 0 <= r && r < s && s < a ==> arr(mat[r]) != arr(mat[s])
+//@     invariant forall r int, c int :: 0 <= r && r < a && 0 <= c && c < n ==> mat[r][c] == nil
+//@     invariant forall t int :: 0 <= t && t < len(es) ==> es[t] == old(es[t])
+//@     invariant forall c int :: 0 <= c && c < len(lower.Nodes) ==> lower.Nodes[c] == old(lower.Nodes[c])
+//@   loop range(es)#1 index b
+//@     invariant len(mat) == m && (forall r int :: 0 <= r && r < m ==> mat[r] == loopold(mat[r]))
+//@     invariant forall r int :: 0 <= r && r < m ==> len(mat[r]) == n && allocatedArr(mat[r]) && !old(allocatedArr(now(mat[r])))
+//@     invariant forall r int, s int :: 0 <= r && r < s && s < m ==> arr(mat[r]) != arr(mat[s])
+//@     invariant forall t int :: 0 <= t && t < len(es) ==> es[t] == old(es[t])
+//@     invariant forall c int :: 0 <= c && c < len(lower.Nodes) ==> lower.Nodes[c] == old(lower.Nodes[c])
+//@     invariant[|C12] forall t int :: 0 <= t && t < b ==>
+//@         mat[upperEnd(es[t], upper.Index).LayerPos][lowerEnd(es[t], upper.Index).LayerPos] == lowerEnd(es[t], upper.Index)
+//@     invariant[|C12] forall r int, c int :: 0 <= r && r < m && 0 <= c && c < n && mat[r][c] != nil ==>
+//@         (exists t int :: 0 <= t && t < b && mat[r][c] == lowerEnd(es[t], upper.Index))
+//@   assert[only0|C12] before "nodes := make" : forall r int, c int :: 0 <= r && r < m && 0 <= c && c < n && mat[r][c] != nil ==>
+//@         (exists t int :: 0 <= t && t < len(es) && mat[r][c] == lowerEnd(es[t], upper.Index))
+//@   assert[only1|C12] after "nodes := make" : forall r int, c int :: 0 <= r && r < m && 0 <= c && c < n && mat[r][c] != nil ==>
+//@         (exists t int :: 0 <= t && t < len(es) && mat[r][c] == lowerEnd(es[t], upper.Index))
+//@   loop range(mat)#2 index i2
+//@     invariant[|C12] forall t int :: 0 <= t && t < len(es) ==>
+//@         mat[upperEnd(es[t], upper.Index).LayerPos][lowerEnd(es[t], upper.Index).LayerPos] == lowerEnd(es[t], upper.Index)
+//@     invariant[|C12] forall r int, c int :: 0 <= r && r < m && 0 <= c && c < n && mat[r][c] != nil ==>
+//@         (exists t int :: 0 <= t && t < len(es) && mat[r][c] == lowerEnd(es[t], upper.Index))
+//@     invariant len(mat) == m && (forall r int :: 0 <= r && r < m ==> mat[r] == loopold(mat[r]) && len(mat[r]) == n)
+//@     invariant forall r int, c int :: 0 <= r && r < m && 0 <= c && c < n ==> mat[r][c] == loopold(mat[r][c])
+//@     invariant forall t int :: 0 <= t && t < len(es) ==> es[t] == old(es[t])
+//@     invariant len(nodes) == len(es) && allocatedArr(nodes) && !old(allocatedArr(now(nodes))) && (forall r int :: 0 <= r && r < m ==> arr(mat[r]) != arr(nodes))
+//@     invariant 0 <= k
+//@     invariant[|C12] forall r int, c int :: 0 <= r && r < i2 && 0 <= c && c < n && mat[r][c] != nil ==> (exists q int :: 0 <= q && q < k && q < len(nodes) && nodes[q] == mat[r][c])
+//@     invariant[|C12] forall q int :: 0 <= q && q < len(nodes) && nodes[q] != nil ==> (exists r int, c int :: 0 <= r && r < m && 0 <= c && c < n && nodes[q] == mat[r][c])
+//@   loop range(mat[i])#1 index j2
+//@     invariant[|C12] forall t int :: 0 <= t && t < len(es) ==>
+//@         mat[upperEnd(es[t], upper.Index).LayerPos][lowerEnd(es[t], upper.Index).LayerPos] == lowerEnd(es[t], upper.Index)
+//@     invariant[|C12] forall r int, c int :: 0 <= r && r < m && 0 <= c && c < n && mat[r][c] != nil ==>
+//@         (exists t int :: 0 <= t && t < len(es) && mat[r][c] == lowerEnd(es[t], upper.Index))
+//@     invariant len(mat) == m && (forall r int :: 0 <= r && r < m ==> mat[r] == loopold(mat[r]) && len(mat[r]) == n)
+//@     invariant forall r int, c int :: 0 <= r && r < m && 0 <= c && c < n ==> mat[r][c] == loopold(mat[r][c])
+//@     invariant forall t int :: 0 <= t && t < len(es) ==> es[t] == old(es[t])
+//@     invariant len(nodes) == len(es) && allocatedArr(nodes) && !old(allocatedArr(now(nodes))) && (forall r int :: 0 <= r && r < m ==> arr(mat[r]) != arr(nodes))
+//@     invariant 0 <= k
+//@     invariant[|C12] forall r int, c int :: 0 <= r && r < m && 0 <= c && c < n && mat[r][c] != nil && (r < i || (r == i && c < j2)) ==> (exists q int :: 0 <= q && q < k && q < len(nodes) && nodes[q] == mat[r][c])
+//@     invariant[|C12] forall q int :: 0 <= q && q < len(nodes) && nodes[q] != nil ==> (exists r int, c int :: 0 <= r && r < m && 0 <= c && c < n && nodes[q] == mat[r][c])
